@@ -2436,3 +2436,9 @@ FINDING_PREDICATES = {
     and _mech(v) == 'f64_tag_4_byte_items' and (v.get('keys') or {}).get('block') == 'pix/metadata'
     and (v.get('keys') or {}).get('field') == 'data_range',
 }
+
+
+# strict-caller variant shard of the runner (numpy floating-point events raise while package code runs): on the
+# unchanged tree the float32 cast of pixel values beyond / below the float32 range overflows / underflows (the stored value is the IEEE result);
+# these benign events are therefore not trapped for this property
+STRICT_NUMPY = {'under': 'ignore', 'over': 'ignore'}
